@@ -35,10 +35,10 @@ import numpy as np
 import torch
 
 from specs import bdsampling as S
-from vt import cond, nf
+from vt import nf
 from vt.cond import Infeasible, Undecided
 from vt.runner import Ob, Refuted
-from vt.scenario import el, prove_scenario, scenario_ob, sexp, slog
+from vt.scenario import el, prove_scenario, sexp, slog
 from vt.stubs import symbolic_factories
 from vt.symtorch import ST, _obj_f
 
@@ -90,7 +90,6 @@ META = {
         "torch.zeros_like -> symbolic zeros, torch.tensor -> exact symbolic constant (so torch.tensor(2.0).log() is log 2 exactly)",
         "options: process_object / Parameter replaced in the module namespace by a tagging stub, constructor replaced by a capturing subclass",
         "real arithmetic; exp/log/sqrt rewrite rules of vt.nf; log arguments positive on the domain (side conditions recorded, cross-checked numerically each run)",
-        "vt.cond.Explorer.decide replaced at import by a corrected copy (the shared one mis-aligns its decision prefix on implied branch conditions and drops paths)",
     ],
     "assumptions": ["machine arithmetic treated as mathematical (reals)",
                     "a tip at height 0 is rho-sampled iff rho(present) > 0, otherwise psi-sampled at time 0 (the reading the code itself takes for mixed trees)",
@@ -110,47 +109,6 @@ MANIFEST = {
                  "normal form (exp/log/sqrt theory, domain re-parametrisation that rationalises the discriminant) against an independent literature oracle; "
                  "recording-dict heap check for options; AST scan for well-formedness; RK4 master-equation integration as bounded stand-in",
 }
-
-
-# ======================================================================================
-# corrected path explorer (see the report: the shared Explorer.decide consumes a prefix entry for
-# implied decisions, which silently drops feasible paths).  No-op once vt/cond.py is fixed.
-
-def _decide(self, c):
-    k = c.key()
-    nk = c.negate().key()
-    for pc in self.path:
-        if pc.key() == k:
-            return True
-        if pc.key() == nk:
-            return False
-    base = self.assumptions + self.path
-    st_t = self._feasible(base + [c])
-    st_f = self._feasible(base + [c.negate()])
-    if "unknown" in (st_t, st_f) and self.on_unknown == "raise":
-        raise Undecided("solver unknown on branch condition %s" % c)
-    t_ok = st_t != "unsat"
-    f_ok = st_f != "unsat"
-    if t_ok and f_ok:
-        if self.pos < len(self.prefix):
-            v = self.prefix[self.pos]
-            self.pos += 1
-            self.path.append(c if v else c.negate())
-            return v
-        self.decisions_total += 1
-        self.prefix.append(True)
-        self.pos += 1
-        self.pending.append(self.prefix[:-1] + [False])
-        self.path.append(c)
-        return True
-    if t_ok:
-        return True
-    if f_ok:
-        return False
-    raise Infeasible("path infeasible")
-
-
-cond.Explorer.decide = _decide
 
 
 # ======================================================================================
@@ -180,6 +138,13 @@ def _rates(mk, sfx=""):
     return lam, mu, psi, A, v
 
 
+def _float_guard(mk, A, x0):
+    """concrete runs only: exp(A·origin) must be representable in binary64 (the claims are over the reals; a point
+    where the real code overflows to inf/nan is outside the floating-point range, not a counterexample)"""
+    if not mk.symbolic and float(A) * float(x0) > 40.0:
+        raise Infeasible("exp(A*origin) overflows binary64 at this point")
+
+
 def _rho(mk, mode, lam, A, v, sfx=""):
     """-> (tensor [1], scalar for the oracle, positive?)"""
     if mode == "sym":
@@ -202,8 +167,14 @@ def _removal(mk, mode):
     return torch.full((1,), val), (nf.const(val) if mk.symbolic else val)
 
 
+GENEALOGY = [False]   # set by _scenario_ob for the second pass that looks for a witness that IS a tree
+
+
 def _heights(mk, T, n0, below=None, root_last=False):
-    """n0 contemporaneous tips (height 0), T-n0 serial tips (symbolic > 0), T-1 symbolic internal heights (unordered)"""
+    """n0 contemporaneous tips (height 0), T-n0 serial tips (symbolic > 0), T-1 symbolic internal heights (unordered).
+    First pass: no ordering between the heights is required (a superset of the genealogies: the identity is proved for all of
+    them).  With GENEALOGY set, the heights are required to form the caterpillar tree (((t0,t1),t2),...) so that a refutation
+    witness is a tree of the property's domain."""
     k = T - n0
     ys = mk.real("y", (k,), lo=0) if k else None
     hs = mk.real("h", (T - 1,), lo=0)
@@ -214,6 +185,12 @@ def _heights(mk, T, n0, below=None, root_last=False):
     nh = torch.cat(parts, -1)
     ysl = [el(ys, (i,)) for i in range(k)]
     hsl = [el(hs, (i,)) for i in range(T - 1)]
+    if GENEALOGY[0]:
+        tipsl = [0.0] * n0 + ysl
+        for i, h in enumerate(hsl):
+            for z in ([tipsl[0], tipsl[1]] if i == 0 else [hsl[i - 1], tipsl[i + 1]]):
+                if not (isinstance(z, float) and z == 0.0):
+                    mk.require(h > z)
     if root_last:
         for z in hsl[:-1] + ysl:
             mk.require(hsl[-1] > z)
@@ -278,6 +255,7 @@ def scn_single_epoch(T, n0, rho_mode, survival, removal, origin_mode="origin", t
             org = mk.real("edge", (1,), lo=0)
             nh, ys, hs, ysl, hsl = _heights(mk, T, n0, root_last=True)
             x0 = el(org, (0,)) + hsl[-1]
+        _float_guard(mk, el(A, (0,)), x0)
         with symbolic_factories(bd, extra=EXTRA, enabled=mk.symbolic):
             d = bd.PiecewiseConstantBirthDeath(lam, mu, psi, rho=rho, origin=org, origin_is_root_edge=(origin_mode == "root_edge"),
                                                times=torch.zeros(1) if times_mode == "explicit" else None,
@@ -298,6 +276,7 @@ def scn_removal_consistency(T, n0, rho_mode, survival):
         lam, mu, psi, A, v = _rates(mk)
         rho, rho_s, rho_pos = _rho(mk, rho_mode, lam, A, v)
         org = mk.real("x0", (1,), lo=0)
+        _float_guard(mk, el(A, (0,)), el(org, (0,)))
         nh, ys, hs, ysl, hsl = _heights(mk, T, n0, below=el(org, (0,)))
         with symbolic_factories(bd, extra=EXTRA, enabled=mk.symbolic):
             a = bd.PiecewiseConstantBirthDeath(lam, mu, psi, rho=rho, origin=org, survival=survival).log_prob(nh)
@@ -314,6 +293,7 @@ def scn_constant_model(T, n0, rho_mode, survival):
         lam, mu, psi, A, v = _rates(mk)
         rho, rho_s, rho_pos = _rho(mk, rho_mode, lam, A, v)
         org = mk.real("x0", (1,), lo=0)
+        _float_guard(mk, el(A, (0,)), el(org, (0,)))
         nh, ys, hs, ysl, hsl = _heights(mk, T, n0, below=el(org, (0,)))
         with symbolic_factories(bdm, extra=EXTRA, enabled=mk.symbolic):
             res = bdm.BirthDeath(lam, mu, psi, rho, org, survival=survival).log_prob(nh)
@@ -334,6 +314,7 @@ def scn_model_call(T, tips, rho_mode, survival):
         lam, mu, psi, A, v = _rates(mk)
         rho, rho_s, rho_pos = _rho(mk, rho_mode, lam, A, v)
         org = mk.real("x0", (1,), lo=0)
+        _float_guard(mk, el(A, (0,)), el(org, (0,)))
         h = mk.real("h", (T - 1,), lo=0)
         hsl = [el(h, (i,)) for i in range(T - 1)]
         # caterpillar genealogy: node i joins tip i+1, above the previous node and above that tip
@@ -375,6 +356,7 @@ def scn_refine(T, n0, rho_mode, survival, removal, where, pieces=2, twin=None):
         r, r_s = _removal(mk, removal)
         org = mk.real("x0", (1,), lo=0)
         x0 = el(org, (0,))
+        _float_guard(mk, el(A, (0,)), x0)
         nh, ys, hs, ysl, hsl = _heights(mk, T, n0, below=x0)
         nodes = hsl + ysl
         bounds = []   # backward heights of the new boundaries, most recent first
@@ -433,6 +415,8 @@ def scn_refine23(T, n0, rho_mode, survival):
         rho_mid = mk.real("rho_mid", (1,), lo=0, hi=1)     # sampling event (thinning only) at the existing boundary
         org = mk.real("x0", (1,), lo=0)
         x0 = el(org, (0,))
+        _float_guard(mk, el(A0, (0,)), x0)
+        _float_guard(mk, el(A1, (0,)), x0)
         nh, ys, hs, ysl, hsl = _heights(mk, T, n0, below=x0)
         b1 = mk.real("b1", (1,), lo=0)     # existing boundary (backward height)
         b2 = mk.real("b2", (1,), lo=0)     # new boundary
@@ -477,6 +461,7 @@ def scn_relative_times(T, n0, rho_mode, survival, m, root_edge=False):
             nh, ys, hs, ysl, hsl = _heights(mk, T, n0, below=el(org, (0,)))
             x0t = org
         x0 = el(x0t, (0,))
+        _float_guard(mk, el(A, (0,)), x0)
         if m > 1:
             u = mk.real("u", (m - 1,), lo=0)     # increasing fractions in (0,1): cumulative sums / (1 + total)
             cs = u.cumsum(-1)
@@ -564,7 +549,7 @@ def _run_from_json(cls_name, present, times_list=False, from_json=None):
     mod, klass = _cls(cls_name)
     raw = {}
     for k in present:
-        raw[k] = [_Marker(k)] if (k == "times" and times_list) else _Marker(k)
+        raw[k] = [0.0, 0.3125, 0.71875] if (k == "times" and times_list) else _Marker(k)
     data = RecordingDict(raw)
     captured = []
 
@@ -600,6 +585,8 @@ def _provenance(value, raw):
     for k, v in raw.items():
         if src is v:
             return k
+        if isinstance(v, list) and torch.is_tensor(src) and src.dim() == 1 and [float(x) for x in src] == v:
+            return k
     return None
 
 
@@ -634,8 +621,9 @@ def check_option(cls_name, arg, from_json=None):
                         raise Refuted("%s.from_json: constructor argument %r is filled from %s instead of data[%r] (value passed: %r)"
                                       % (cls_name, arg, ("data[%r]" % got) if got else "a value not taken from the specification", key, bound[arg]),
                                       witness=dict(w, filled_from=got))
-                    if isinstance(raw[key], list) and not isinstance(bound[arg], _Made):
-                        raise Refuted("%s.from_json: list value of %r passed through unconverted" % (cls_name, key), witness=w)
+                    if isinstance(raw[key], list) and not (isinstance(bound[arg], _Made) and bound[arg].via == "Parameter" and torch.is_tensor(bound[arg].src)):
+                        raise Refuted("%s.from_json: the list given for %r is not turned into a Parameter holding a Tensor (got %r; Parameter(id_, tensor: Tensor)); "
+                                      "every later use (`.tensor.shape`, torch.cat) fails" % (cls_name, key, bound[arg]), witness=w)
                 else:
                     if arg in bound:
                         got = _provenance(bound[arg], raw)
@@ -719,6 +707,8 @@ def _real_effect(cls_name, option):
 def replay_options(args):
     cls_name, arg = args["cls"], args["arg"]
     option = args.get("option") or arg
+    if option == "times" and not args.get("option"):
+        option = "times_list"
     if option not in _OPTION_VALUES:
         try:
             check_option(cls_name, arg)
@@ -1049,21 +1039,59 @@ def _refine_numeric_case(m, trial, seed):
                                                "lambda": lam, "mu": mu, "psi": psi, "rho": rho0, "survival": surv}
 
 
+def _refine_multi_case(k, trial, seed):
+    """k epochs with pairwise different rates and thinning events at their boundaries; one epoch (random) is split at a random
+    interior point into two sub-epochs with identical rates and rho = 0 at the new boundary"""
+    import torchtree.evolution.bdsk as bd
+    rng = random.Random(zlib.crc32(("refine-multi/%d/%d/%d" % (k, trial, seed)).encode()))
+    n = rng.choice([2, 3, 4, 5])
+    tips = [0.0] + [0.0 if rng.random() < 0.4 else round(rng.uniform(0.1, 2.0), 3) for _ in range(n - 1)]
+    tree, hs, root = _rand_tree(rng, tips)
+    x0 = root + rng.uniform(0.1, 1.0)
+    cuts = sorted(rng.uniform(0.01, x0 - 0.01) for _ in range(k - 1))      # forward times of the existing boundaries
+    lam = [rng.uniform(0.5, 3) for _ in range(k)]
+    mu = [rng.uniform(0.2, 2) for _ in range(k)]
+    psi = [rng.uniform(0.1, 1.5) for _ in range(k)]
+    rho = [rng.choice([0.0, 0.2, 0.5]) for _ in range(k - 1)] + [rng.choice([0.0, 0.3, 1.0])]
+    surv = rng.random() < 0.5
+    j = rng.randrange(k)
+    edges = [0.0] + cuts + [x0]
+    new = rng.uniform(edges[j] + 1e-3, edges[j + 1] - 1e-3)
+    dup = lambda v: v[: j + 1] + v[j:]
+    t = lambda v: torch.tensor(v, dtype=torch.float64)
+    nh = t(tips + list(hs.values()))
+    base = bd.PiecewiseConstantBirthDeath(t(lam), t(mu), t(psi), rho=t(rho), origin=t([x0]), times=t([0.0] + cuts), survival=surv).log_prob(nh)
+    split = bd.PiecewiseConstantBirthDeath(t(dup(lam)), t(dup(mu)), t(dup(psi)), rho=t(rho[:j] + [0.0] + rho[j:]), origin=t([x0]),
+                                           times=t([0.0] + sorted(cuts + [new])), survival=surv).log_prob(nh)
+    return float(base.reshape(-1)[0]), float(split.reshape(-1)[0]), {
+        "tips": tips, "internal": list(hs.values()), "origin": x0, "forward_boundaries": cuts, "new_boundary": new, "split_epoch": j,
+        "lambda": lam, "mu": mu, "psi": psi, "rho": rho, "survival": surv}
+
+
 def replay_refine_numeric(args):
+    if args.get("multi"):
+        one, split, desc = _refine_multi_case(args["m"], args["trial"], args["seed"])
+        if abs(one - split) > 1e-9 * max(1.0, abs(one)):
+            return False, "%d epochs %.12f, after splitting epoch %d: %.12f on %s" % (args["m"], one, desc["split_epoch"], split, desc)
+        return True, "agree: %.12f" % one
     one, split, desc = _refine_numeric_case(args["m"], args["trial"], args["seed"])
     if abs(one - split) > 1e-9 * max(1.0, abs(one)):
         return False, "one epoch %.12f, %d identical sub-epochs %.12f on %s" % (one, args["m"], split, desc)
     return True, "agree: %.12f" % one
 
 
-def ob_refine_numeric(m, trials, seed):
+def ob_refine_numeric(m, trials, seed, multi=False):
     def fn():
         for trial in range(trials):
-            one, split, desc = _refine_numeric_case(m, trial, seed)
+            one, split, desc = (_refine_multi_case if multi else _refine_numeric_case)(m, trial, seed)
             if abs(one - split) > 1e-9 * max(1.0, abs(one)):
-                raise Refuted("one epoch %.12f vs %d identical sub-epochs %.12f" % (one, m, split), witness=desc, confirmed=True,
-                              replay={"kind": "custom", "contract": "C09", "func": "replay_refine_numeric", "args": {"m": m, "trial": trial, "seed": seed}})
-        return {"backend": "numeric", "cases": trials, "statement": "1 epoch ≡ %d identical sub-epochs at %d random points (rel 1e-9)" % (m, trials)}
+                raise Refuted(("%d epochs with different rates %.12f vs one of them split %.12f" if multi else "one epoch %.12f vs %d identical sub-epochs %.12f")
+                              % ((m, one, split) if multi else (one, m, split)), witness=desc, confirmed=True,
+                              replay={"kind": "custom", "contract": "C09", "func": "replay_refine_numeric",
+                                      "args": {"m": m, "trial": trial, "seed": seed, "multi": multi}})
+        return {"backend": "numeric", "cases": trials,
+                "statement": ("%d epochs (different rates) ≡ the same with one epoch split, %d random points (rel 1e-9)" if multi
+                              else "1 epoch ≡ %d identical sub-epochs at %d random points (rel 1e-9)") % (m, trials)}
     return fn
 
 
@@ -1122,6 +1150,45 @@ def _vac_master(seed):
 
 # ======================================================================================
 
+def _scenario_ob(name, factory, args, clause, seed, timeout=900, **kw):
+    """like vt.scenario.scenario_ob; a refutation whose witness is not a tree is re-derived under the genealogy
+    precondition (caterpillar trees), so that every reported witness lies inside the property's quantifier"""
+    def body():
+        import importlib
+        mod = importlib.import_module("contracts.C09")
+        rp = {"contract": "C09", "factory": factory, "args": list(args)}
+        try:
+            mod.GENEALOGY[0] = False
+            return prove_scenario(getattr(mod, factory)(*args), seed=seed, replay=rp, **kw)
+        except Refuted as e:
+            first = e
+        nf.reset()
+        rp2 = {"contract": "C09", "factory": "scn_genealogy", "args": [factory, list(args)]}
+        try:
+            prove_scenario(scn_genealogy(factory, list(args)), seed=seed, replay=rp2, **kw)
+        except Refuted as e2:
+            raise e2
+        except Undecided as u:
+            raise Undecided("refuted on unordered heights (%s) but the search for a witness that is a tree was undecided: %s" % (first.detail[:200], u))
+        raise Undecided("refuted only for node heights that do not form a (caterpillar) tree: %s" % first.detail[:300])
+    return Ob(name, "V", body, clause=clause, funcs=FUNCS, timeout=timeout)
+
+
+def scn_genealogy(factory, args):
+    """the scenario `factory(*args)` under the additional precondition that the heights form a caterpillar genealogy"""
+    import importlib
+    mod = importlib.import_module("contracts.C09")
+    inner = getattr(mod, factory)(*[tuple(a) if isinstance(a, tuple) else a for a in args])
+
+    def scn(mk):
+        mod.GENEALOGY[0] = True
+        try:
+            return inner(mk)
+        finally:
+            mod.GENEALOGY[0] = False
+    return scn
+
+
 def _tip_schemes(T):
     """(n0 contemporaneous, rho_mode): every split of the tips, with the sampling modes that make sense for it"""
     out = []
@@ -1144,7 +1211,7 @@ def obligations(tier, seed):
     def sc(name, factory, args, clause, **kw):
         kw.setdefault("max_paths", 20000)
         kw.setdefault("timeout", 900)
-        obs.append(scenario_ob("C09", name, "V", factory, args, clause=clause, funcs=FUNCS, seed=seed, **kw))
+        obs.append(_scenario_ob(name, factory, args, clause, seed, **kw))
 
     # ---- options (U) and their effect on real objects (B)
     for cls_name in ("BDSKModel", "BirthDeathModel"):
@@ -1153,6 +1220,8 @@ def obligations(tier, seed):
             obs.append(Ob("C09.options.%s[%s]" % (cls_name, p.name), "U", ob_option(cls_name, p.name),
                           clause="JSON options select the behaviour they name", funcs=FUNCS))
     for option in _OPTION_VALUES:
+        if option == "times_list":
+            continue    # same call site as C09.options.BDSKModel[times] (whose replay runs it on real objects)
         obs.append(Ob("C09.options.effect.BDSKModel[%s]" % option, "B", ob_option_effect("BDSKModel", option),
                       clause="JSON options select the behaviour they name", funcs=FUNCS))
 
@@ -1223,14 +1292,17 @@ def obligations(tier, seed):
                 sc("C09.refine[T=%d,tips=%dc+%ds,rho=%s,survival=True,boundary=on_branching_time]" % (T, n0, T - n0, mo), "scn_refine",
                    (T, n0, mo, True, None, "node0"), cl + " (boundary exactly on a branching time)")
     for T, n0, mo in ((2, 1, "sym"), (3, 1, "sym"), (2, 0, "zero")):
-        sc("C09.refine.three_pieces[T=%d,tips=%dc+%ds,rho=%s]" % (T, n0, T - n0, mo), "scn_refine", (T, n0, mo, True, None, "generic", 3), cl)
+        if T == 2:
+            sc("C09.refine.three_pieces[T=%d,tips=%dc+%ds,rho=%s]" % (T, n0, T - n0, mo), "scn_refine", (T, n0, mo, True, None, "generic", 3), cl)
         sc("C09.refine.removal[T=%d,tips=%dc+%ds,rho=%s]" % (T, n0, T - n0, mo), "scn_refine", (T, n0, mo, True, "sym", "generic"),
            cl + " (with removal probability)")
-    for T, n0, mo in ((2, 1, "sym"), (2, 0, "zero")) + (((3, 1, "sym"),) if thorough else ()):
-        sc("C09.refine.two_to_three_epochs[T=%d,tips=%dc+%ds,rho=%s]" % (T, n0, T - n0, mo), "scn_refine23", (T, n0, mo, True),
-           cl + " (one epoch of a two-epoch model with different rates and a sampling event at their boundary)")
+    # an epoch of a model whose epochs carry DIFFERENT rates: the symbolic identity (scn_refine23) exceeds the normal-form budget
+    # (B_i of the older epochs are nested rational functions of p_{i+1}); decided numerically only (bounded)
     for m in (2, 4, 8):
         obs.append(Ob("C09.refine.numeric[m=%d]" % m, "B", ob_refine_numeric(m, 10 if thorough else 4, seed), clause=cl, funcs=FUNCS))
+    for k in (2, 3, 7):
+        obs.append(Ob("C09.refine.numeric.different_rates[%d->%d epochs]" % (k, k + 1), "B", ob_refine_numeric(k, 10 if thorough else 4, seed, multi=True),
+                      clause=cl + " (other epochs carry different rates)", funcs=FUNCS))
 
     # ---- relative times (V)
     for m in (1, 2):
@@ -1248,7 +1320,7 @@ def obligations(tier, seed):
 
     # ---- vacuity
     obs.append(Ob("C09.vacuity.single_epoch.mu_psi_swapped", "V",
-                  _must_refute(lambda: scn_single_epoch(3, 1, "sym", True, None, twin="swap_mu_psi"), seed, "oracle with mu and psi swapped"),
+                  _must_refute(lambda: scn_single_epoch(2, 1, "sym", False, None, twin="swap_mu_psi"), seed, "oracle with mu and psi swapped"),
                   clause="vacuity", funcs=FUNCS))
     obs.append(Ob("C09.vacuity.refine.rho_at_new_boundary", "V",
                   _must_refute(lambda: scn_refine(2, 1, "sym", True, None, "generic", twin="rho_at_new_boundary"), seed, "sampling event rho=1/2 at the new boundary"),
